@@ -1112,3 +1112,30 @@ def own_name_cases():
                 except gfapy.Error as e:
                     return "%s refused (%s)" % (shape.format("X9", "B"), type(e).__name__)
     return True
+
+
+def emptied_group_cases():
+    """concrete battery for Disconnection._remove_nonfield_backreferences: a gap listed by sets and paths is removed: every group loses the
+    mention (each occurrence), a group that listed nothing else is gone (with the groups over it), every other line stays, the text reads back"""
+    base = ["S\tA\t8\t*", "S\tB\t8\t*", "G\tg1\tA+\tB+\t5\t*", "G\tg2\tA-\tB-\t5\t*"]
+    cases = [(["U\tu1\tg1"], []), (["U\tu1\tg1 A"], ["U\tu1\tA"]), (["U\tu1\tg1 g1"], []), (["U\tu1\tg1 g2"], ["U\tu1\tg2"]),
+             (["U\tu1\tg1", "U\tu2\tu1 A"], []), (["U\tu1\tg1", "U\tu2\tg1 B", "U\tu3\tg1 A g1"], ["U\tu2\tB", "U\tu3\tA"]),
+             (["U\tu1\tA g1", "U\tu2\tu1"], ["U\tu1\tA", "U\tu2\tu1"]), (["U\tu1\tg1", "U\tu2\tg1", "U\tu3\tu1 u2", "U\tu4\tA"], ["U\tu4\tA"])]
+    for groups, want in cases:
+        for order in (base + groups, groups + base):
+            g = gfapy.Gfa(order, vlevel=0)
+            try:
+                g.rm("g1")
+            except Exception as e:
+                return "%r: rm(g1) raised %s: %s" % (groups, type(e).__name__, str(e)[:80])
+            got = sorted(str(x) for x in g.lines if x.record_type in "OU")
+            if got != sorted(want):
+                return "%r: after rm(g1) the groups are %r, expected %r" % (groups, got, sorted(want))
+            rest = sorted(str(x) for x in g.lines if x.record_type not in "OUH")
+            if rest != sorted(l for l in base if not l.startswith("G\tg1")):
+                return "%r: after rm(g1) the other lines are %r" % (groups, rest)
+            try:
+                gfapy.Gfa(str(g), vlevel=1).validate()
+            except gfapy.Error as e:
+                return "%r: the text after rm(g1) cannot be read back (%s): %r" % (groups, type(e).__name__, str(g))
+    return True
